@@ -638,3 +638,41 @@ func VH_C11_DumpReturnsAtStall(blank, created, extra int) {
 	vAssert(!f.blocked, "the scan returns without asking the stalled producer for more")
 	vAssert(len(suffix) == f.pos-endStart, "the remainder is the line that ended the dump and whatever was read past it")
 }
+
+// VH_C10_CutResolved: with path guessing on (declared file system: the file of
+// the first goroutine exists under the local GOPATH), a dump of two goroutines
+// is cut inside the second one - by the end of the stream or by a reader
+// failure: the first goroutine, complete before the cut, comes back exactly as
+// from the uncut stream, local path and location class included.
+//
+//verif:prop C10
+//verif:param cut 0..5
+//verif:param failure 0..1
+func VH_C10_CutResolved(cut, failure int) {
+	b := vBytes("pkg", 1)
+	vAssume(vAnd(b[0] >= 'a', b[0] <= 'z'))
+	rel := string(b) + "/x.go"
+	root := vTempRoot()
+	opts := &Opts{LocalGOROOT: root + "/goroot", LocalGOPATHs: []string{root + "/gopath"}, GuessPaths: true}
+	vSetFile(root + "/gopath/src/" + rel)
+	first := "goroutine 1 [running]:\nmain.f()\n\t/r/src/" + rel + ":3 +0x1\n\n"
+	second := "goroutine 2 [running]:\nmain.g(0x1)\n\t/r/src/" + rel + ":4 +0x1\n\n"
+	full, _, _ := ScanSnapshot(&vhFeeder{data: []byte(first + second)}, &vhSink{}, opts)
+	// cuts inside the second goroutine: in its header, after it, inside the
+	// function line, after it, inside the file line, before its end
+	offs := []int{5, 23, 27, 35, 40, len(second) - 2}
+	data := []byte(first + second[:offs[cut]])
+	s, _, err := ScanSnapshot(&vhFeeder{data: data, failure: failure == 1}, &vhSink{}, opts)
+	vReach("cut stream scanned with path guessing")
+	vAssert(full != nil && len(full.Goroutines) == 2 && s != nil && len(s.Goroutines) >= 1, "both streams yield the first goroutine")
+	if full == nil || s == nil || len(s.Goroutines) == 0 {
+		return
+	}
+	if failure == 1 {
+		vAssert(err != nil && err != io.EOF, "the reader failure is reported")
+	}
+	want, got := &full.Goroutines[0].Stack.Calls[0], &s.Goroutines[0].Stack.Calls[0]
+	vAssert(want.LocalSrcPath == root+"/gopath/src/"+rel && want.Location == GOPATH, "the uncut stream resolves the first goroutine")
+	vAssert(got.LocalSrcPath == want.LocalSrcPath && got.RelSrcPath == want.RelSrcPath && got.Location == want.Location && got.Line == want.Line,
+		"a goroutine complete before the cut is the same as from the uncut stream, resolved paths included")
+}
